@@ -57,6 +57,8 @@ class Ctx(object):
             c = z3.Const("str!%d!%s" % (len(self.str_lits), re.sub(r"[^A-Za-z0-9]", "_", s)[:12]), self.Str)
             self.str_lits[s] = c
             self.axiom("strlen.lit", self.strlen(c) == len(s))
+            nows = self.func("str_nows", self.Str, z3.BoolSort())
+            self.axiom("nows.lit", nows(c) == z3.BoolVal(bool(s) and not s[0].isspace() and not s[-1].isspace()))
         return self.str_lits[s]
 
     def distinctness(self):
